@@ -3,6 +3,7 @@ import GoaktVerif.Model.C20.Stream
 import GoaktVerif.Spec.C20
 import GoaktVerif.Lemmas.C20Stream
 import GoaktVerif.Lemmas.C20QueueFinal
+import GoaktVerif.Lemmas.C20Agree
 
 /-
 C20 — "Every event published on a topic is delivered exactly once to each subscriber that was subscribed and
@@ -56,6 +57,15 @@ theorem C20_conservation (progs : List (List Op)) (s : List (Nat × Option Nat))
         deqVals ((runP (init .fresh progs) s).lin.reverse.map (·.2)) ++ q := by
   obtain ⟨q, h1, h2⟩ := C20_queue_holds progs s
   exact ⟨q, h2, by simpa using replay_conservation _ [] q h1⟩
+
+/-- The log is faithful to what the operations return (both modes, every schedule): the events thread `tid` has
+in the log (latest first) are exactly the events implied by the results of its completed operations
+(`opEvs`: `Enqueue(v)`/delivered `signal(v)` ↦ enq v, `Dequeue` returning r ↦ deq r, an `Iterator` returning l ↦ one deq
+per element, plus the final nil it saw if it stopped early), preceded by those of its operation in progress. -/
+theorem C20_log_agrees (mode : Mode) (progs : List (List Op)) (s : List (Nat × Option Nat)) (tid : Nat) (t : Queue.Thread)
+    (ht : (runP (init mode progs) s).threads[tid]? = some t) :
+    evsOf tid (runP (init mode progs) s).lin = pendEvs t ++ t.hist.flatMap opEvs :=
+  (agree_runP s _ (agree_init mode progs)).evs tid t ht
 
 /-- non-vacuity: a run in which both layers of the invariant are exercised (two publishers, one drainer) -/
 example : (runP (init .fresh [[.sig 1], [.sig 2], [.iter]])
